@@ -306,17 +306,17 @@ DEFAULTS = {
 }
 # per solver: (key, non-default values) — 0/1 switches are listed with both values
 PARAM_SPACE = {
-    'panoc': {'beta': [0.5, 0.05, 1.0, 0.999], 'Lgf': [0.5, 0.25, 0.99, 1.0], 'minls': [0.25, 2.0 ** -20, 0.6],
+    'panoc': {'beta': [0.5, 0.05, 1.0, 0.999, 2.0, 8.0], 'Lgf': [0.5, 0.25, 0.99, 1.0], 'minls': [0.25, 2.0 ** -20, 0.6],
               'lsupd': [0.25, 0.9], 'lipeps': [1e-3, 1e-9], 'lipdelta': [1e-6, 1e-3], 'Lmin': [1.0, 16.0],
               'Lmax': [64.0, 1024.0], 'force': [0, 1], 'updcand': [0, 1], 'recomp': [0, 1], 'eager': [0, 1]},
-    'zerofpr': {'beta': [0.5, 0.05, 1.0, 0.999], 'Lgf': [0.5, 0.25, 0.99, 1.0], 'minls': [0.25, 2.0 ** -20, 0.6],
+    'zerofpr': {'beta': [0.5, 0.05, 1.0, 0.999, 2.0, 8.0], 'Lgf': [0.5, 0.25, 0.99, 1.0], 'minls': [0.25, 2.0 ** -20, 0.6],
                 'lipeps': [1e-3, 1e-9], 'lipdelta': [1e-6, 1e-3], 'Lmin': [1.0, 16.0], 'Lmax': [64.0, 1024.0],
                 'force': [0, 1], 'updcand': [0, 1], 'updprox': [0, 1], 'recomp': [0, 1]},
     'pantr': {'Lgf': [0.5, 0.25, 0.99], 'lipeps': [1e-3, 1e-9], 'lipdelta': [1e-6, 1e-3], 'Lmin': [1.0, 16.0],
               'Lmax': [64.0, 1024.0], 'approx': [0, 1], 'rationew': [0, 1], 'updprox': [0, 1], 'recomp': [0, 1],
               'noaccel': [0, 1], 'fd': [0, 1]},
     'fista': {'Lgf': [0.5, 0.25, 0.99, 1.0], 'lipeps': [1e-3, 1e-9], 'lipdelta': [1e-6, 1e-3], 'noacc': [0, 1]},
-    'ocp': {'beta': [0.5, 0.05, 1.0, 0.999], 'Lgf': [0.5, 0.25, 0.99, 1.0], 'minls': [0.25, 2.0 ** -20],
+    'ocp': {'beta': [0.5, 0.05, 1.0, 0.999, 2.0, 8.0], 'Lgf': [0.5, 0.25, 0.99, 1.0], 'minls': [0.25, 2.0 ** -20],
             'lipeps': [1e-3, 1e-9], 'lipdelta': [1e-6, 1e-3], 'Lmin': [1.0, 16.0], 'Lmax': [64.0, 1024.0],
             'gnint': [0, 1, 2, 3], 'gnsticky': [0, 1], 'resetgn': [0, 1], 'noaccel': [0, 1]},
 }
